@@ -429,6 +429,18 @@ def extra_obligations(w, tier, seed):
             if attr != '_cur_capacity' and txt not in c.ghost_after: bad.append((q, txt, 'no ghost update attached'))
     out.append(ob('scan/ghost-accounting', 'every statement of Block/BasePool/Pool that writes conns, pending_conns or _cur_capacity is in a function under contract (conns / pending_conns writes with the ghost update of G_total attached)',
                   not bad, 'unaccounted writers: %s' % bad))
+    # 4. prune_all_connections (HA failover) is outside the invariant proof -- it closes lent connections by design -- but one clause of C15 still binds it: a connection whose
+    #    close has been started is never lent.  Shape obligation: every block's idle stack and registry are emptied before the first await of the function (so that a
+    #    concurrent acquire() cannot be handed one of the connections being closed)
+    fn = funcs['Pool.prune_all_connections']
+    first_await = min([n.lineno for n in ast.walk(fn) if isinstance(n, ast.Await)] or [10 ** 9])
+    clears = {}
+    for n in ast.walk(fn):
+        if isinstance(n, ast.Call) and isinstance(n.func, ast.Attribute) and n.func.attr == 'clear' and isinstance(n.func.value, ast.Attribute) and n.func.value.attr in ('conn_stack', 'conns'):
+            clears.setdefault(n.func.value.attr, []).append(n.lineno)
+    ok4 = all(clears.get(a) and max(clears[a]) < first_await for a in ('conn_stack', 'conns'))
+    out.append(dict(ob('scan/prune_all/unregister-before-await', 'Pool.prune_all_connections empties conn_stack and conns of every block before its first await', ok4,
+                       'clear() calls at %s, first await at line %s' % (clears, first_await)), tag='property'))
     return out
 
 def _run_scenarios(tier, seed, repo_root, outdir, key):
